@@ -231,6 +231,12 @@ def oracle_c03(rows):
             snap = s["snap"]
             if s["op"]["k"] == "restore":
                 stranded = set()
+            # a finalize that succeeded has used the slate's private context up: repeating it (with this
+            # or another reply) must find nothing to sign with
+            if s["op"]["k"] in ("finalize", "finalize_invoice") and s["rc"] == [0] \
+                    and s["op"]["slate"] in snap.get("contexts", []):
+                fails.append({"row": (r["seed"], r["wallet"]), "seed": r["seed"], "step": idx,
+                              "what": "successful finalize of slate %s left its private context stored" % s["op"]["slate"]})
             if s["op"]["k"] in ("lock", "finalize") and s["rc"] == [0] and prev is not None:
                 ins = s["extra"].get("ctx_inputs")
                 if s["op"]["k"] == "lock" and ins:
